@@ -149,9 +149,29 @@ func canonOps() []OpM {
 var enumLayouts = layouts()
 var enumOps = canonOps()
 
-func enumCount() uint64 {
+// tripleLayouts are the layouts on which every ordered TRIPLE of canonical
+// operations is enumerated as well (thorough tier).
+var tripleLayouts = func() []int {
+	want := map[string]bool{"plain": true, "lead@0": true, "linecmt#@2": true, "opencmt#@1": true, "oneline@1": true,
+		"oneline-empty@1": true, "nofinalnl": true, "tailcmt-nofinalnl": true, "block-last-nofinalnl": true,
+		"emptybody@1": true, "heredoc@0": true, "only-block": true}
+	var idx []int
+	for i, l := range enumLayouts {
+		if want[l.name] {
+			idx = append(idx, i)
+		}
+	}
+	return idx
+}()
+
+func enumPairs() uint64 {
 	n := uint64(len(enumOps))
 	return uint64(len(enumLayouts)) * n * n
+}
+
+func enumCount() uint64 {
+	n := uint64(len(enumOps))
+	return enumPairs() + uint64(len(tripleLayouts))*n*n*n
 }
 
 // enumHistory builds the idx-th history of the enumeration (idx is taken
@@ -159,6 +179,16 @@ func enumCount() uint64 {
 func enumHistory(idx uint64) *History {
 	idx %= enumCount()
 	n := uint64(len(enumOps))
+	if idx >= enumPairs() {
+		t := idx - enumPairs()
+		li := tripleLayouts[t/(n*n*n)]
+		o1, o2, o3 := (t/(n*n))%n, (t/n)%n, t%n
+		h := &History{Property: "C12", Seed: idx, Note: fmt.Sprintf("enumerated: layout %s, ops %d, %d, %d", enumLayouts[li].name, o1, o2, o3)}
+		h.Init = InitM{Kind: "parsed", Body: baseBody()}
+		enumLayouts[li].apply(&h.Init)
+		h.Ops = []OpM{enumOps[o1], enumOps[o2], enumOps[o3]}
+		return h
+	}
 	li, o1, o2 := idx/(n*n), (idx/n)%n, idx%n
 	h := &History{Property: "C12", Seed: idx, Note: fmt.Sprintf("enumerated: layout %s, ops %d then %d", enumLayouts[li].name, o1, o2)}
 	h.Init = InitM{Kind: "parsed", Body: baseBody()}
